@@ -319,6 +319,11 @@ def applyTok (m : Nat → Nat → Bool) (cs : Ctx × S) (tok : List String) : Ct
       -- recent preview request is the one for the item under the cursor.  (The unchanged code keeps this at EVERY iteration end;
       -- only the settled ones are claimed.)
       (if v == "0" && quiet == "1" then flagBad c "settled-but-preview-request-is-not-for-the-current-item" else c, s)
+  | ["PVN", pvn, nsel, quiet] =>
+      -- C20 at the Model's wiring, the selection part of a request: once the session is settled the most recent preview request was
+      -- made for the CURRENT number of selected items (what `{+}` previews depend on; a selection change that keeps the count is the
+      -- recorded known finding and is not judged here)
+      (if quiet == "1" && pvn != nsel then flagBad c s!"settled-but-preview-request-is-for-another-selection:request={pvn},selected={nsel}" else c, s)
   | "OUT" :: kvs => (judgeOut c s kvs, s)
   | _ => (flagMis c s!"bad-token:{" ".intercalate tok}", s)
 
